@@ -434,6 +434,21 @@ def _gate_table(ctx, r, gate):
                     t = cfg.true_of(c)
                     if not any(w.id in cfg.reach([t.id], blocked=[first_bit.id]) for w in norm_nodes):
                         ok = False
+        if not ok:
+            # accepted idiom: `flags = 0 if flags is None else flags` / `flags = flags if flags is not None else 0` / `flags = flags or 0`
+            for w in cfg.writes(lambda t: t == fl):
+                v = w.ast.value if isinstance(w.ast, ast.Assign) else None
+                good = False
+                if isinstance(v, ast.IfExp) and isinstance(v.test, ast.Compare) and isinstance(v.test.left, ast.Name) and v.test.left.id == fl \
+                        and isinstance(v.test.comparators[0], ast.Constant) and v.test.comparators[0].value is None:
+                    none_arm = v.body if isinstance(v.test.ops[0], (ast.Is, ast.Eq)) else v.orelse
+                    other = v.orelse if none_arm is v.body else v.body
+                    good = isinstance(none_arm, ast.Constant) and isinstance(none_arm.value, int) and isinstance(other, ast.Name) and other.id == fl
+                if isinstance(v, ast.BoolOp) and isinstance(v.op, ast.Or) and len(v.values) == 2 and isinstance(v.values[0], ast.Name) and v.values[0].id == fl \
+                        and isinstance(v.values[1], ast.Constant) and v.values[1].value == 0:
+                    good = True
+                if good and cfg.dominates(w.id, first_bit.id):
+                    ok = True
         if ok:
             r.ok("flags None normalised before the first bit test")
         else:
